@@ -181,35 +181,92 @@ def attrs_of(cls):
     return a
 
 
-def make(cls, overrides=None):
+def make(cls, overrides=None, scripted=False):
     kw = dict(SPEC[cls]["kw"])
     kw.update(overrides or {})
+    if scripted:
+        # validation is the FIRST statement of randomise; an exhausted script stops the sampler at its first draw, so
+        # that extreme-but-valid parameters (tiny epsilon: rejection loops, C12's business) cannot stall the sweep
+        kw["random_state"] = (seams.ScriptedRandomState() if cls in ("Staircase", "Bingham")
+                              else seams.ScriptedSystemRandom())
     return getattr(M, cls)(**kw)
 
 
+class _Timeout(BaseException):
+    pass
+
+
+def _alarm(*a):
+    raise _Timeout()
+
+
+def with_timeout(f, seconds=2.0):
+    """-> (result, timed_out)"""
+    import signal
+    old = signal.signal(signal.SIGALRM, _alarm)
+    signal.setitimer(signal.ITIMER_REAL, seconds)
+    try:
+        return f(), False
+    except _Timeout:
+        return None, True
+    finally:
+        signal.setitimer(signal.ITIMER_REAL, 0)
+        signal.signal(signal.SIGALRM, old)
+
+
+def in_validation(exc):
+    """was the exception raised inside one of the `_check_*` methods (as opposed to the computations that follow)?"""
+    import traceback
+    return any(fr.name.startswith("_check") for fr in traceback.extract_tb(exc.__traceback__))
+
+
 def run_ctor(cls, overrides):
+    """-> (kind, kind of the validation part alone)"""
     try:
         with warnings.catch_warnings():
             warnings.simplefilter("ignore")
-            make(cls, overrides)
-        return "ok", None
+            with np.errstate(all="ignore"):
+                make(cls, overrides)
+        return "ok", "ok"
     except Exception as e:  # noqa
-        return kind_of(e), e
+        return kind_of(e), (kind_of(e) if in_validation(e) else "ok")
 
 
-def run_rand(cls, assign):
-    """construct validly, assign attributes, randomise -> (kind, returned?)"""
-    m = make(cls)
+def run_check_all(cls, assign):
+    """the validation unit of the randomise stage: `_check_all(value)` on an instance with reassigned attributes"""
+    m = make(cls, scripted=True)
     for a, v in assign.items():
         setattr(m, a, v)
     try:
         with warnings.catch_warnings():
             warnings.simplefilter("ignore")
             with np.errstate(all="ignore"):
-                out = m.randomise(SPEC[cls]["value"])
-        return "ok", out
+                m._check_all(SPEC[cls]["value"])
+        return "ok"
     except Exception as e:  # noqa
-        return kind_of(e), None
+        return kind_of(e)
+
+
+def run_rand(cls, assign, scripted=True):
+    """construct validly, assign attributes, randomise -> (kind, what came back)"""
+    m = make(cls, scripted=scripted)
+    for a, v in assign.items():
+        setattr(m, a, v)
+
+    def go():
+        try:
+            with warnings.catch_warnings():
+                warnings.simplefilter("ignore")
+                with np.errstate(all="ignore"):
+                    return "ok", m.randomise(SPEC[cls]["value"])
+        except seams.ScriptExhausted:
+            return "ok", "<validation passed; sampler reached>"
+        except Exception as e:  # noqa
+            return kind_of(e), None
+    res, timed_out = with_timeout(go)
+    if timed_out:
+        return "ok", "<validation passed; randomise did not return within 2 s>"
+    return res
 
 
 def ctor_line(cls, overrides):
@@ -285,7 +342,7 @@ def rand_view(cls, assign):
     return vals
 
 
-def judge_mech(ctx, cls, stage, assign, kind, returned, model):
+def judge_mech(ctx, cls, stage, assign, kind, returned, model, vkind):
     key = (cls, stage, tuple(sorted((a, enc(v)) for a, v in assign.items())))
     ctx.case(key if kind != "ok" else None)
     vals = ctor_view(cls, assign) if stage == "ctor" else rand_view(cls, assign)
@@ -293,12 +350,14 @@ def judge_mech(ctx, cls, stage, assign, kind, returned, model):
     data = {"unit": "mechanism", "cls": cls, "stage": stage, "assign": {a: enc(v) for a, v in assign.items()}}
     if inv is not None and kind not in ("typeError", "valueError"):
         suffix = "accepted" if stage == "ctor" else "accepted-at-randomise"
+        if stage == "rand" and kind == "ok":
+            returned = run_rand(cls, assign, scripted=False)[1]
         what = (f"{cls}: {inv[0]} invalid ({inv[1]}) with {data['assign']} "
                 + ("was accepted by the constructor" if stage == "ctor" else
                    f"set after construction: randomise returned {returned!r}" if kind == "ok" else f"raised {kind}"))
         ctx.violation(f"C13:{cls}:{inv[0]}:{inv[1]}:{suffix}", what, data)
-    if model != kind:
-        ctx.disagree("mechanism." + stage, data, model, kind)
+    if model != vkind:
+        ctx.disagree("mechanism." + stage, data, model, vkind)
     else:
         ctx.trace_ok()
 
@@ -349,11 +408,11 @@ def check_mechanisms(ctx):
     outs = leanio.run_driver("Validation", lines)
     for (cls, stage, assign), model in zip(cases, outs):
         if stage == "ctor":
-            kind, _ = run_ctor(cls, assign)
-            judge_mech(ctx, cls, stage, assign, kind, None, model)
+            kind, vkind = run_ctor(cls, assign)
+            judge_mech(ctx, cls, stage, assign, kind, None, model, vkind)
         else:
             kind, out = run_rand(cls, assign)
-            judge_mech(ctx, cls, stage, assign, kind, out, model)
+            judge_mech(ctx, cls, stage, assign, kind, out, model, run_check_all(cls, assign))
     ctx.count("mechanism_cases", len(cases))
     ctx.sample({"cls": "Laplace", "stage": "ctor", "assign": {"epsilon": "nan"}, "impl": run_ctor("Laplace", {"epsilon": NAN})[0]})
     ctx.sample({"cls": "Binary", "stage": "rand", "assign": {"delta": "0.5"}, "impl": run_rand("Binary", {"delta": 0.5})[0]})
@@ -407,9 +466,7 @@ def check_validation(ctx):
         for up in bvals:
             lines.append(f"bounds {tok(lo)} {tok(up)}")
             inv = None
-            if lo is None or up is None:
-                inv = ("bounds", "none")
-            elif is_real(lo) and is_real(up) and lo > up:
+            if is_real(lo) and is_real(up) and lo > up:
                 inv = ("bounds", "lower-above-upper")
             recs.append(("check_bounds", (lo, up), call_kind(V.check_bounds, (lo, up))[0], inv))
     X = np.array([[3.0, 4.0], [0.3, 0.4]])
@@ -548,7 +605,7 @@ def model_calls():
 
 
 EPS_CAT = INVALID_CAT[:3] + ["1", 1j, None, 0, 0.0, False, -INF, INF, 1.0, True, 0.5, 5e-324, 1, 3]
-BOUNDS_CAT = [(0, 1), (1, 0), (1.0, 0.0), (None, 1), (0, None), (INF, -INF), (0.0, 1.0), (0.5, 0.5)]
+BOUNDS_CAT = [(0, 1), (1, 0), (1.0, 0.0), (INF, -INF), (0.0, 1.0), (0.25, 0.75), (True, 0), (2, 0.5)]
 
 
 def eps_invalid(e):
@@ -565,8 +622,6 @@ def eps_invalid(e):
 
 def bounds_invalid(b):
     lo, up = b
-    if lo is None or up is None:
-        return "bounds", "none"
     if lo > up:
         return "bounds", "lower-above-upper"
     return None
@@ -580,7 +635,7 @@ def check_entries(ctx):
     for group, name, has_bounds, f in entries:
         cases = [(e, (0, 1)) for e in EPS_CAT]
         if has_bounds:
-            cases += [(1.0, b) for b in BOUNDS_CAT] + [(NAN, (1, 0)), (-1.0, (None, 1))]
+            cases += [(1.0, b) for b in BOUNDS_CAT] + [(NAN, (1, 0)), (-1.0, (2, 1))]
         for e, b in cases:
             acc = BA(100.0, 0.0, spent_budget=[(0.5, 0.0)])
             before = acc_state(acc)
@@ -644,6 +699,8 @@ def notes_sweep(ctx):
     t("LaplaceTruncated(lower=nan)", lambda: M.LaplaceTruncated(epsilon=1, sensitivity=1, lower=NAN, upper=1))
     t("check_bounds(('0','1'))", lambda: dp.validation.check_bounds(("0", "1")))
     t("check_bounds((0, 1j))", lambda: dp.validation.check_bounds((0, 1j)))
+    t("check_bounds((0, None))", lambda: dp.validation.check_bounds((0, None)))
+    t("mean(X, bounds=(0, None))", lambda: T.mean(_X, epsilon=1.0, bounds=(0, None), accountant=dp.BudgetAccountant()))
     t("PCA(data_norm=nan).fit", lambda: MD.PCA(n_components=1, epsilon=1.0, bounds=(0, 1), data_norm=NAN,
                                                 accountant=dp.BudgetAccountant()).fit(_X))
     t("LogisticRegression(data_norm=nan).fit", lambda: MD.LogisticRegression(
